@@ -352,8 +352,10 @@ func ValidateRequestBody(ctx context.Context, input *RequestValidationInput, req
 	}
 
 	if defaultsSet {
-		var err error
-		if data, err = encodeBody(value, mediaType); err != nil {
+		// encode into a variable of its own: `data` is captured by the GetBody closure installed above
+		// and must keep the received bytes when encoding fails
+		newData, err := encodeBody(value, mediaType)
+		if err != nil {
 			return &RequestError{
 				Input:       input,
 				RequestBody: requestBody,
@@ -361,6 +363,7 @@ func ValidateRequestBody(ctx context.Context, input *RequestValidationInput, req
 				Err:         err,
 			}
 		}
+		data := newData
 		// Put the data back into the input
 		if req.Body != nil {
 			req.Body.Close()
